@@ -32,6 +32,46 @@ func main() {
 		if run.Thorough() {
 			cases, maxN = 60, 24
 		}
+		// directed case: a ring large enough that far fingers point beyond the successor list; a member that is
+		// only a finger (not a list entry) of other members leaves; after the repair rounds every finger of every
+		// member must name a live owner again (judged at `quiet`), and lookups from every member must succeed
+		for d := 0; d < 2; d++ {
+			n := 10 + rng.Intn(5)
+			s := ringh.NewSession(run, rng)
+			base := rng.U64() % ringh.M
+			var ids []uint64
+			for i := 0; i < n; i++ {
+				ids = append(ids, (base+uint64(i)*(ringh.M/uint64(n))+uint64(rng.Intn(1000)))%ringh.M)
+			}
+			if d == 1 { // joined in descending order
+				for i, j := 0, len(ids)-1; i < j; i, j = i+1, j-1 {
+					ids[i], ids[j] = ids[j], ids[i]
+				}
+			}
+			members := s.BuildRing(ids)
+			s.Repair(members, 12)
+			s.Quiet()
+			for k := 0; k < 2 && len(members) > 6 && !s.Dead; k++ {
+				l := hlib.Pick(rng, members)
+				if s.Do("leave", ringh.U(l)) == "ok" {
+					var rest []uint64
+					for _, m := range members {
+						if m != l {
+							rest = append(rest, m)
+						}
+					}
+					members = rest
+				}
+				s.Repair(members, 12)
+				s.Quiet()
+				for _, m := range members {
+					s.Do("lookup", ringh.U(m), ringh.U((l+1)%ringh.M))
+					s.Do("lookup", ringh.U(m), ringh.U((m+ringh.M/2)%ringh.M))
+				}
+			}
+			run.Count("directed:far-leave")
+			run.Case(hlib.F("far-leave-%d-%v", d, ids))
+		}
 		for c := 0; c < cases; c++ {
 			n := 2 + rng.Intn(maxN-1)
 			s := ringh.NewSession(run, rng)
